@@ -161,12 +161,16 @@ def run(repo, tier):
             if it.is_subclass(rec.cls, ERROR):
                 continue
             k = (rec.cls, id(rec.origin))
-            if k not in escaping or len(rec.chain) < len(escaping[k].chain):
+            cur = escaping.get(k)
+            if cur is None or (cur.uncertain and not rec.uncertain) or (cur.uncertain == rec.uncertain and len(rec.chain) < len(cur.chain)):
                 escaping[k] = rec
     undecided = []
     for (exc, _), rec in sorted(escaping.items(), key=lambda t: (t[0][0], getattr(t[1].origin, 'lineno', 0))):
         chain = [c for c in rec.chain if c[0] != '<entry>']
         q_origin = chain[-1][0]
+        if rec.uncertain:
+            undecided.append('{}:{} whether `{}` can raise {} depends on a value the analysis does not know'.format(q_origin, getattr(rec.origin, 'lineno', '?'), unparse(rec.origin)[:50], exc))
+            continue
         if isinstance(rec.origin, ast.Raise) and q_origin in it.funcs and any(id(n) in it.unrefined_type_tests for n in walk_no_nested(it.funcs[q_origin])):
             # an explicit raise in a function that tests types in a way the interpretation cannot follow: whether the raise is
             # reachable is not known
